@@ -166,6 +166,62 @@ theorem C14_factors_hash_partial (len : Bool) (p : Feature) (hp : plainP (toPred
 example : plainP (toPred (binop .or (gtLit 1) (binop .and (gtLit (-2)) (gtLit 3)))) = true ∧
     plainP (toPred (binop .or (gtLit (-1)) (gtLit (-2)))) = false := by decide
 
+/-- **conjunctions are safe under any sameness test**: on a condition without a disjunction `Factors.merge` can only
+keep `left[k]` alone where it should have AND-ed the two — a weaker filter.  Every factor is a predicate over its own
+table that holds whenever the condition holds, whatever `same` is. -/
+theorem C14_factors_conjunctive_any_test (same : Feature → Feature → Bool) (len : Bool) (S : Sem) (p : Feature)
+    (hp : orFree (toPred p) = true) (m : FMap) (h : factorsPG same len (toPred p) = .ok m)
+    (t : Source) (f : Feature) (hf : (t, f) ∈ m) :
+    isTable t = true ∧ (∀ e ∈ elems f, e.1 = t) ∧ (∀ e ∈ elems f, e ∈ elems p) ∧
+      ∀ env, eval S env p = .bool true → eval S env f = .bool true := by
+  have k := factorsPG_conj_sound same len S (toPred p) hp m h t f hf
+  refine ⟨k.table, k.own, fun e he => (mem_elemsP_toPred p e).mp (k.sub e he), fun env he => k.sound env ?_⟩
+  rw [evalP_toPred]
+  exact he
+
+/-- **second proved part for /repo HEAD** (the hash test): `C14_factors` at full strength — hash-colliding literals
+allowed — on every condition without a disjunction.  Together with `C14_factors_hash_counterexample`: a lost conjunct is
+harmless, only a lost disjunct (`Or.factors`) withholds rows. -/
+theorem C14_factors_hash_conjunctive (len : Bool) (S : Sem) (p : Feature) (hp : orFree (toPred p) = true) (m : FMap)
+    (h : factorsOfHash len p = .ok m) (t : Source) (f : Feature) (hf : (t, f) ∈ m) :
+    isTable t = true ∧ (∀ e ∈ elems f, e.1 = t) ∧ (∀ e ∈ elems f, e ∈ elems p) ∧
+      ∀ env, eval S env p = .bool true → eval S env f = .bool true :=
+  C14_factors_conjunctive_any_test sameHash len S p hp m h t f hf
+
+/-- non-vacuity: `(A.x > -1) & (A.x > -2)` has no disjunction, is not `plainP` (outside `C14_factors_hash_partial`), the
+hash test really loses the conjunct `A.x > -2` (structural identity keeps both) — and the factor left is sound; the
+refuting condition of `C14_factors_hash_counterexample` is outside the hypothesis -/
+example : orFree (toPred (binop .and (gtLit (-1)) (gtLit (-2)))) = true ∧
+    plainP (toPred (binop .and (gtLit (-1)) (gtLit (-2)))) = false ∧
+    (factorsOfHash true (binop .and (gtLit (-1)) (gtLit (-2)))).toOption = some [(tH, gtLit (-1))] ∧
+    (factorsOf true (binop .and (gtLit (-1)) (gtLit (-2)))).toOption = some [(tH, binop .and (gtLit (-1)) (gtLit (-2)))] ∧
+    orFree (toPred (binop .or (gtLit (-1)) (gtLit (-2)))) = false := by decide
+
+/-- **what `Factors.merge`'s sameness test has to guarantee** (every condition, disjunctions included): if the test only
+calls two factors the same when the right one being TRUE forces the left one to be TRUE (`ImpliedTest`), every factor is a
+predicate over its own table that holds whenever the condition holds.  Structural identity (the repaired code,
+`C14_factors`) is an instance; so is any finer or semantically justified test (`repr` equality, the harmless mutation). -/
+theorem C14_factors_any_sound_test (same : Feature → Feature → Bool) (len : Bool) (S : Sem) (hsame : ImpliedTest S same)
+    (p : Feature) (m : FMap) (h : factorsPG same len (toPred p) = .ok m) (t : Source) (f : Feature) (hf : (t, f) ∈ m) :
+    isTable t = true ∧ (∀ e ∈ elems f, e.1 = t) ∧ (∀ e ∈ elems f, e ∈ elems p) ∧
+      ∀ env, eval S env p = .bool true → eval S env f = .bool true := by
+  have k := factorsPG_sound same len S hsame (toPred p) m h t f hf
+  refine ⟨k.table, k.own, fun e he => (mem_elemsP_toPred p e).mp (k.sub e he), fun env he => k.sound env ?_⟩
+  rw [evalP_toPred]
+  exact he
+
+/-- non-vacuity of the hypothesis: structural identity satisfies it for every semantics -/
+theorem C14_structural_test_implied (S : Sem) : ImpliedTest S (fun a b => decide (a = b)) :=
+  impliedTest_structural S
+
+/-- the hash test of /repo HEAD does not: it calls `A.x > -1` and `A.x > -2` the same, the row `x = -1` tells them apart
+(the root cause of C14-X7 as one property of the test, independent of the condition it is used on) -/
+theorem C14_hash_test_not_implied : ¬ ImpliedTest simpleSem sameHash := by
+  intro h
+  have := h (gtLit (-1)) (gtLit (-2)) (by decide) [(tH, [("x", .int (-1))])] (by decide)
+  revert this
+  decide
+
 /-! ### row filter -/
 
 /-- the property at full strength: for every statement the grammar admits, honouring the offered row filters does not
